@@ -5,6 +5,7 @@ import (
 	"encoding/hex"
 	"encoding/json"
 	"fmt"
+	"math"
 	"math/big"
 	"math/rand"
 	"strings"
@@ -301,6 +302,17 @@ func GridCases(thorough bool) []WriteCase {
 			// wrapper around a string body of L bytes
 			add(0, model.StrV(strings.Repeat("y", L)).WithAnn(model.T("a")))
 		}
+	}
+	// a character that needs a long escape after every number of plain bytes 0..200 (text writers
+	// that collect output in fixed-size pieces), in strings, symbols, field names and annotations
+	for k := 0; k <= 200; k++ {
+		t := strings.Repeat("a", k) + "\x01" + "zz \x1f\"end"
+		add(0, model.StrV(t), model.SymV(model.T(t)), model.StructV(model.Int64V(1).WithField(model.T(t)).WithAnn(model.T(t))), model.ClobV([]byte(strings.Repeat("c", k)+"\x01\xff\x80 end")))
+	}
+	// floats just beyond the float32 range that have few significant bits (binary writers narrow
+	// to 32 bits when that is lossless)
+	for _, f := range []float64{math.Ldexp(1, 128), math.Ldexp(1.5, 128), 2 * math.MaxFloat32, math.Ldexp(1, 129), math.Ldexp(1, 127), math.MaxFloat32, math.Ldexp(1, -149), math.Ldexp(1, -150), math.Ldexp(1, -126), math.Ldexp(1.5, -127)} {
+		add(0, model.FloatV(f), model.FloatV(-f), model.ListV(model.FloatV(f)))
 	}
 	// many distinct symbols: symbol ids cross the one/two/three-byte boundaries (127/128, 16383/16384)
 	// in every position an id is written (value, field name, annotation)
